@@ -557,7 +557,7 @@ func c14GenKey(rng *rand.Rand) string {
 	case k < 14:
 		return "i:" + strconv.Itoa([]int{1, 2, -1, 10}[rng.Intn(4)])
 	case k < 16:
-		return c14KeyFloatTok([]float64{1, 2.5, 1e21, 0.1}[rng.Intn(4)])
+		return c14KeyFloatTok([]float64{1, 2.5, 1e21, 0.1, 1700000001, 1700000002, 16777217, 16777216, 0.12345678901, 0.12345678902}[rng.Intn(10)]) // incl. neighbours that collide at float32 precision
 	case k < 17:
 		return []string{"t", "f"}[rng.Intn(2)]
 	case k < 19:
